@@ -82,6 +82,12 @@ func propC01(c *Ctx, r *Report) {
 	c.runMemoSkipKey(r, "memo.skipkey", inPkgs("spirv"))
 	r.floor("memo.skipkey", 3)
 	r.floor("memo.skipSets", 1)
+	r.Clauses = append(r.Clauses, irFieldReadClause)
+	c.runIRFieldRead(r, "irfield.read", "spirv", irFieldReadExceptions)
+	r.floor("irfield.read.spirv", 90)
+	r.Clauses = append(r.Clauses, shallowWalkerClause)
+	c.runShallowWalker(r, "walker.shallow", inPkgs("spirv"), shallowWalkerExceptions)
+	r.floor("walker.shallow", 2)
 	r.Clauses = append(r.Clauses, accumDroppedClause)
 	c.runAccumDropped(r, "accum.dropped", inPkgs("spirv"))
 	r.floor("accum.dropped", 5)
